@@ -46,11 +46,15 @@ def gen_cfg(rng):
     names = set()
     pool = ["k1", "k2", "Key", ""] + [word(rng, 1, 6) for _ in range(3)]
     for _ in range(rng.randint(0, 12)):
-        nm = word(rng, 0, 8) if rng.random() < 0.9 else rng.choice(["", " ", "Display Settings", "a b"])
+        nm = word(rng, 0, 8) if rng.random() < 0.9 else rng.choice(["", " ", "Display Settings", "a b", word(rng, 1030, 1100)])
         if nm in names:
             continue
         names.add(nm)
         keys = [(rng.choice(pool) if rng.random() < 0.7 else word(rng, 0, 8), word(rng, 0, 10)) for _ in range(rng.choice([0, 0, 1, 2, 3, 5, 8]))]
+        if keys and rng.random() < 0.08:
+            # there is no limit on the length of a line
+            i = rng.randrange(len(keys))
+            keys[i] = (keys[i][0] if rng.random() < 0.5 else word(rng, 1000, 1300), word(rng, 1020, 5000))
         cats.append((nm, keys))
     return cats
 
@@ -195,7 +199,8 @@ def exl_case(ctx, rng):
         n = word(rng, 0, 12, EXL_ALPHA)
         if rng.random() < 0.15:
             # names next to the structural ones
-            n = rng.choice(["EXLTest", "EXLT2", "exlt", "EXL", "xEXLT", "a#b", "trailing#", "Item ", " Item", "quest/000/ClsHrv001_00003"])
+            n = rng.choice(["EXLTest", "EXLT2", "exlt", "EXL", "xEXLT", "a#b", "trailing#", "Item ", " Item", "quest/000/ClsHrv001_00003", "quest//000", "a///b", "/lead", "trail/", "./x", "A/../B",
+                            "+5", "0x10", word(rng, 1030, 1100, EXL_ALPHA)])
         if n == "EXLT" or n.startswith("#"):
             n = "x" + n
         ents.append((n, rng.choice(I + [rng.randint(-2 ** 31, 2 ** 31 - 1)])))
